@@ -16,6 +16,15 @@ SPREAD_OLD = ("                    errors[col + 2] += error * 0.4375; // 7/16\n 
               "                    errors[col + ewidth + 1] += error * 0.3125; // 5/16\n                    errors[col + ewidth + 2] += error * 0.0625; // 1/16\n")
 KDNODE_GENERAL = "            nodes.push(KDNode {\n                color,\n                color_index,\n                dim,\n                left,\n                right,\n            });"
 
+PALETTE_REC_OLD = ("        fn palette_rec(node: &mut OcTreeNode, palette: &mut Vec<RGBA>) {\n            use OcTreeNode::*;\n            match node {\n                Empty => {}\n                Leaf(leaf) => {\n"
+                   "                    leaf.index = palette.len();\n                    palette.push(leaf.to_rgba());\n                }\n                Tree(tree) => {\n"
+                   "                    for child in tree.children.iter_mut() {\n                        palette_rec(child, palette)\n                    }\n                }\n            }\n        }\n\n"
+                   "        let mut palette = Vec::new();\n        for child in self.children.iter_mut() {\n            palette_rec(child, &mut palette);\n        }\n")
+ERRORS_OLD = ("        let mut errors: Vec<ColorError> = Vec::new();\n        let ewidth = self.width() + 2; // to avoid check for the first and the last pixels\n"
+              "        if dither {\n            errors.resize_with(ewidth * 2, ColorError::new);\n        }\n")
+SUBSAMPLE_OLD = ("            let mut octree = OcTree::new();\n            let mut rnd = Rnd::new();\n            let mut colors = img.iter().copied();\n"
+                 "            while let Some(color) = colors.nth((rnd.next_u32() % sample) as usize) {\n                octree.insert(blend(bg, color));\n            }\n            octree\n")
+
 MUTANTS = [
     # ---- SAME-SIZE -------------------------------------------------------------------------------------------------------------
     {"id": "C13-size-swapped", "prop": "C13", "expect": "SAME-SIZE",
@@ -353,4 +362,74 @@ MUTANTS = [
      "edits": [(I, SWAP_OLD, "                errors.copy_within(ewidth.., 0);\n                errors[ewidth * 2 + 1..].fill(ColorError::new());\n")]},
     {"id": "C13-rows-truncated-before-use", "prop": "C13", "expect": "ERR-ROWS",
      "edits": [(I, SWAP_OLD, "                errors.copy_within(ewidth.., 0);\n                errors.truncate(ewidth);\n                errors.resize_with(ewidth * 2 - 1, ColorError::new);\n")]},
+    # ---- refactoring shapes of seeded/benign/C12-J, C12-K, C13-J, C13-L (and their breaking counterparts) ----------------------------------------
+    {"id": "C13-benign-path-next-checked-sub", "prop": "C13", "benign": True,
+     "edits": [(I, "        if self.length == 0 {\n            return None;\n        }\n        self.length -= 1;\n", "        self.length = self.length.checked_sub(1)?;\n")]},
+    {"id": "C13-benign-path-next-let-else", "prop": "C13", "benign": True,
+     "edits": [(I, "        if self.length == 0 {\n            return None;\n        }\n        self.length -= 1;\n",
+                "        let Some(rest) = self.length.checked_sub(1) else {\n            return None;\n        };\n        self.length = rest;\n")]},
+    {"id": "C13-benign-path-next-lt-one", "prop": "C13", "benign": True,
+     "edits": [(I, "        if self.length == 0 {\n            return None;\n        }\n        self.length -= 1;\n", "        if self.length < 1 {\n            return None;\n        }\n        self.length -= 1;\n")]},
+    {"id": "C13-path-next-checked-sub-two", "prop": "C13", "expect": "OCTREE-INV",
+     "edits": [(I, "        if self.length == 0 {\n            return None;\n        }\n        self.length -= 1;\n", "        self.length = self.length.checked_sub(2)?;\n")]},
+    {"id": "C13-benign-collect-leafs-tree-visitor", "prop": "C13", "benign": True,
+     "edits": [(I, PALETTE_REC_OLD, "        fn collect_leafs(tree: &mut OcTree, palette: &mut Vec<RGBA>) {\n            use OcTreeNode::*;\n            for child in tree.children.iter_mut() {\n                match child {\n"
+                   "                    Tree(subtree) => collect_leafs(subtree, palette),\n                    Leaf(leaf) => {\n                        leaf.index = palette.len();\n                        palette.push(leaf.to_rgba());\n"
+                   "                    }\n                    Empty => {}\n                }\n            }\n        }\n\n        let mut palette = Vec::new();\n        collect_leafs(self, &mut palette);\n")]},
+    {"id": "C13-collect-leafs-skips-subtrees", "prop": "C13", "expect": "PALETTE-BOUND",
+     "edits": [(I, PALETTE_REC_OLD, "        fn collect_leafs(tree: &mut OcTree, palette: &mut Vec<RGBA>) {\n            use OcTreeNode::*;\n            for child in tree.children.iter_mut() {\n                match child {\n"
+                   "                    Leaf(leaf) => {\n                        leaf.index = palette.len();\n                        palette.push(leaf.to_rgba());\n"
+                   "                    }\n                    _ => {}\n                }\n            }\n        }\n\n        let mut palette = Vec::new();\n        collect_leafs(self, &mut palette);\n")]},
+    {"id": "C13-collect-leafs-revisits-same-tree", "prop": "C13", "expect": "PALETTE-BOUND",
+     "edits": [(I, PALETTE_REC_OLD, "        fn collect_leafs(tree: &mut OcTree, palette: &mut Vec<RGBA>) {\n            use OcTreeNode::*;\n            for child in tree.children.iter_mut().take(7) {\n                match child {\n"
+                   "                    Tree(subtree) => collect_leafs(subtree, palette),\n                    Leaf(leaf) => {\n                        leaf.index = palette.len();\n                        palette.push(leaf.to_rgba());\n"
+                   "                    }\n                    Empty => {}\n                }\n            }\n        }\n\n        let mut palette = Vec::new();\n        collect_leafs(self, &mut palette);\n")]},
+    {"id": "C13-collect-leafs-fresh-palette-per-subtree", "prop": "C13", "expect": "PALETTE-BOUND",
+     "edits": [(I, PALETTE_REC_OLD, "        fn collect_leafs(tree: &mut OcTree, palette: &mut Vec<RGBA>) {\n            use OcTreeNode::*;\n            for child in tree.children.iter_mut() {\n                match child {\n"
+                   "                    Tree(subtree) => collect_leafs(subtree, &mut Vec::new()),\n                    Leaf(leaf) => {\n                        leaf.index = palette.len();\n                        palette.push(leaf.to_rgba());\n"
+                   "                    }\n                    Empty => {}\n                }\n            }\n        }\n\n        let mut palette = Vec::new();\n        collect_leafs(self, &mut palette);\n")]},
+    {"id": "C13-benign-palette-rec-renamed-arms-reordered", "prop": "C13", "benign": True,
+     "edits": [(I, PALETTE_REC_OLD, "        fn emit(node: &mut OcTreeNode, out: &mut Vec<RGBA>) {\n            match node {\n                OcTreeNode::Tree(tree) => {\n                    for child in tree.children.iter_mut() {\n"
+                   "                        emit(child, out)\n                    }\n                }\n                OcTreeNode::Leaf(leaf) => {\n                    leaf.index = out.len();\n                    out.push(leaf.to_rgba());\n"
+                   "                }\n                OcTreeNode::Empty => {}\n            }\n        }\n\n        let mut palette = Vec::with_capacity(self.info.leaf_count);\n        for child in self.children.iter_mut() {\n            emit(child, &mut palette);\n        }\n")]},
+    {"id": "C13-palette-cleared-between-children", "prop": "C13", "expect": "PALETTE-BOUND",
+     "edits": [(I, "        for child in self.children.iter_mut() {\n            palette_rec(child, &mut palette);\n        }\n",
+                "        for child in self.children.iter_mut() {\n            palette.truncate(255);\n            palette_rec(child, &mut palette);\n        }\n")]},
+    {"id": "C13-benign-blend-match-alpha-255", "prop": "C13", "benign": True,
+     "edits": [(I, BLEND_FN_OLD, "        fn blend(bg: RGBA, color: RGBA) -> RGBA {\n            match color.to_rgba() {\n                [_, _, _, 255] => color,\n                _ => bg.blend_over(color),\n            }\n        }\n\n")]},
+    {"id": "C13-benign-blend-quantize-ne-255", "prop": "C13", "benign": True,
+     "edits": [(I, BLEND_Q, "                if color.to_rgba()[3] != u8::MAX {\n                    color = bg.blend_over(color);\n                }\n")]},
+    {"id": "C13-blend-match-alpha-zero", "prop": "C13", "expect": "BLEND-AGREE",
+     "edits": [(I, BLEND_FN_OLD, "        fn blend(bg: RGBA, color: RGBA) -> RGBA {\n            match color.to_rgba() {\n                [_, _, _, 0] => color,\n                _ => bg.blend_over(color),\n            }\n        }\n\n")]},
+    {"id": "C13-blend-match-arms-swapped", "prop": "C13", "expect": "BLEND-AGREE",
+     "edits": [(I, BLEND_FN_OLD, "        fn blend(bg: RGBA, color: RGBA) -> RGBA {\n            match color.to_rgba() {\n                [_, _, _, 255] => bg.blend_over(color),\n                _ => color,\n            }\n        }\n\n")]},
+    {"id": "C13-benign-error-rows-vec-macro-if-else", "prop": "C13", "benign": True,
+     "edits": [(I, ERRORS_OLD, "        let ewidth = self.width() + 2;\n        let mut errors: Vec<ColorError> = if dither {\n            vec![ColorError::new(); ewidth * 2]\n        } else {\n            Vec::new()\n        };\n")]},
+    {"id": "C13-benign-error-rows-match-dither", "prop": "C13", "benign": True,
+     "edits": [(I, ERRORS_OLD, "        let ewidth = self.width() + 2;\n        let mut errors: Vec<ColorError> = match dither {\n            false => Vec::new(),\n            true => vec![ColorError::new(); 2 * ewidth],\n        };\n")]},
+    {"id": "C13-error-rows-vec-macro-one-row", "prop": "C13", "expect": "ERR-ROWS",
+     "edits": [(I, ERRORS_OLD, "        let ewidth = self.width() + 2;\n        let mut errors: Vec<ColorError> = if dither {\n            vec![ColorError::new(); ewidth]\n        } else {\n            Vec::new()\n        };\n")]},
+    {"id": "C13-error-rows-vec-macro-under-not-dither", "prop": "C13", "expect": "C13/",
+     "edits": [(I, ERRORS_OLD, "        let ewidth = self.width() + 2;\n        let mut errors: Vec<ColorError> = if !dither {\n            vec![ColorError::new(); ewidth * 2]\n        } else {\n            Vec::new()\n        };\n")]},
+    {"id": "C13-error-rows-emptied-after-sizing", "prop": "C13", "expect": "C13/",
+     "edits": [(I, ERRORS_OLD, "        let ewidth = self.width() + 2;\n        let mut errors: Vec<ColorError> = if dither {\n            vec![ColorError::new(); ewidth * 2]\n        } else {\n            Vec::new()\n        };\n"
+                   "        if palette_size > 4096 {\n            errors = Vec::new();\n        }\n")]},
+    {"id": "C13-benign-from-image-subsample-helper", "prop": "C13", "benign": True,
+     "edits": [(I, SUBSAMPLE_OLD, "            Self::octree_subsampled(&img, sample, bg)\n"),
+               (I, "    // Number of color in the palette\n", "    fn octree_subsampled(img: &impl Surface<Item = RGBA>, stride: u32, bg: RGBA) -> OcTree {\n        let mut octree = OcTree::new();\n        let mut rnd = Rnd::new();\n"
+                   "        let mut pixels = img.iter().copied();\n        while let Some(pixel) = pixels.nth((rnd.next_u32() % stride) as usize) {\n            octree.insert(flatten_over(bg, pixel));\n        }\n        octree\n    }\n\n"
+                   "    // Number of color in the palette\n"),
+               (I, BLEND_FN_OLD, ""),
+               (I, "img.iter().map(|c| blend(bg, *c)).collect()", "img.iter().map(|c| flatten_over(bg, *c)).collect()"),
+               (I, "/// Color palette which implements fast NNS with euclidean distance.\n", "fn flatten_over(bg: RGBA, color: RGBA) -> RGBA {\n    if color.to_rgba()[3] < 255 {\n        bg.blend_over(color)\n    } else {\n        color\n    }\n}\n\n"
+                   "/// Color palette which implements fast NNS with euclidean distance.\n")]},
+    {"id": "C13-from-image-subsample-helper-result-dropped", "prop": "C13", "expect": "PALETTE-BOUND",
+     "edits": [(I, SUBSAMPLE_OLD, "            let _ = Self::octree_subsampled(&img, sample, bg);\n            OcTree::new()\n"),
+               (I, "    // Number of color in the palette\n", "    fn octree_subsampled(img: &impl Surface<Item = RGBA>, stride: u32, bg: RGBA) -> OcTree {\n        let mut octree = OcTree::new();\n        let mut rnd = Rnd::new();\n"
+                   "        let mut pixels = img.iter().copied();\n        while let Some(pixel) = pixels.nth((rnd.next_u32() % stride) as usize) {\n            octree.insert(flatten_over(bg, pixel));\n        }\n        octree\n    }\n\n"
+                   "    // Number of color in the palette\n"),
+               (I, BLEND_FN_OLD, ""),
+               (I, "img.iter().map(|c| blend(bg, *c)).collect()", "img.iter().map(|c| flatten_over(bg, *c)).collect()"),
+               (I, "/// Color palette which implements fast NNS with euclidean distance.\n", "fn flatten_over(bg: RGBA, color: RGBA) -> RGBA {\n    if color.to_rgba()[3] < 255 {\n        bg.blend_over(color)\n    } else {\n        color\n    }\n}\n\n"
+                   "/// Color palette which implements fast NNS with euclidean distance.\n")]},
 ]
